@@ -289,12 +289,25 @@ def load_role(s, b, facts, sites):
                 used = True
         if not used:
             return "acquire-before-free"
-    # advisory: function is an is_unique slot of some vtable
+    # advisory: function is an is_unique slot of some vtable, or a private helper whose every crate caller is advisory
+    # (`Shared::is_unique(&self)` shared by the is_unique slots); one non-advisory caller makes it a guard
     vts = roles.vtables(facts)
+    slot_dids = set()
     for name, slots in vts.items():
         iu = slots.get("is_unique")
-        if iu and ((iu.get("res") or iu).get("did") == b.did or iu.get("did") == b.did):
-            return "advisory"
+        if iu:
+            slot_dids.add(iu.get("did") if iu.get("did") is not None else (iu.get("res") or {}).get("did"))
+    from .inline import callers_of
+
+    def advisory(fb, seen):
+        if fb.did in slot_dids:
+            return True
+        if fb.did in seen or str(fb.vis).startswith("Public"):
+            return False
+        cs = callers_of(facts, fb.did)
+        return bool(cs) and all(advisory(c, seen | {fb.did}) for c in cs)
+    if advisory(b, frozenset()):
+        return "advisory"
     return "guard"
 
 
